@@ -19,7 +19,7 @@ package hermes
 // C12  date conversion
 
 //@ func KalenderDate
-//@   serves C12
+//@   serves C12, C05
 //@   requires domain: 1 <= MASDAT && MASDAT <= 72684
 //@   ensures valid: validDate(year, month, day)
 //@   ensures inverse: daynumber(year, month, day) == MASDAT
@@ -27,7 +27,7 @@ package hermes
 //@   unroll 12
 
 //@ func DateConverter$1
-//@   serves C12
+//@   serves C12, C05
 //@   opaque extractDate
 //@   ensures masdat: validDate(1900+YR, MON, TG) ==> masDat == daynumber(1900+YR, MON, TG)
 //@   ensures doy: validDate(1900+YR, MON, TG) ==> ztDat == doy(1900+YR, MON, TG)
@@ -87,7 +87,7 @@ package hermes
 
 // Rendering: which numbers are handed to the formatter, per format (the formatter itself is text layer).
 //@ func KalenderConverter$1
-//@   serves C12
+//@   serves C12, C05
 //@   ghost var a0 int
 //@   ghost var a1 int
 //@   ghost var a2 int
@@ -1251,3 +1251,62 @@ package hermes
 //@   unroll 5
 //@ loop ReadCropParamClassic@"for i2 := 0; i2 < 10; i2++ { g.SUM[i2] = 0 g.DEV[i2] = 0"
 //@   unroll 10
+
+// ---------------------------------------------------------------------------
+// C05  output records of the day loop (ghost counters count the records handed to the writers)
+// annual output day: clamped to a day of year that every year has, so each simulated year meets it exactly once
+//@ region HermesSession.Run$1#outday from "OUTDAY, OUTY := g.Datum(DAYOUT)" to "if OUTDAY > 365 {"
+//@   serves C05
+//@   opaque DateConverter$1
+//@   ensures everyyear: OUTDAY <= 365
+
+//@ region HermesSession.Run$1#yearly from "if g.TAG.Index+1 == OUTDAY {" to "if g.TAG.Index+1 == OUTDAY {"
+//@   serves C05
+//@   ghost var yearly int
+//@   at call yearlyOutConfig.WriteLine: ghost yearly = yearly + 1
+//@   requires year: 0 <= JZ && JZ < 200 && g.JTAG >= 365
+//@   ensures onrecord: yearly == old(yearly) + ite(old(g.TAG.Index) + 1 == OUTDAY, 1, 0)
+//@   ensures calendar: unchanged(g.TAG.Index, g.J, g.JTAG)
+
+//@ region HermesSession.Run$1#daily from "if OUTINT > 0 { if (ZEIT % OUTINT) == 0 {" to "if OUTINT > 0 { if (ZEIT % OUTINT) == 0 {"
+//@   serves C05
+//@   ghost var daily int
+//@   at call dailyOutputConfig.WriteLine: ghost daily = daily + 1
+//@   requires crop: 0 <= g.AKF.Index && g.AKF.Index < 300
+//@   ensures onrecord: daily == old(daily) + ite(OUTINT > 0 && tmod(ZEIT, OUTINT) == 0, 1, 0)
+//@   ensures calendar: unchanged(g.TAG.Index, g.J, g.JTAG)
+
+// crop record: written iff Nitro reports a finished crop cycle (Nitro#harvest/post:record), once per report
+//@ region HermesSession.Run$1#croprecord from "finished, err := Nitro(WDT, SUBD, ZEIT, &g, &nitroSharedVars, &nitroSharedBBBVars, &herPath, &cropOut)" to "if finished {"
+//@   serves C05
+//@   opaque Nitro
+//@   ghost var crops int
+//@   ghost var reported bool = false
+//@   after call Nitro: ghost reported = res0
+//@   at call cropOutputConfig.WriteLine: ghost crops = crops + 1
+//@   ensures onrecord: crops == old(crops) + ite(reported, 1, 0)
+
+// one yearly record per simulated year; one daily record per day whose number is a multiple of the interval
+//@ lemma C05-yearly
+//@   serves C05
+//@   var outday int
+//@   var len int
+//@   var d1 int
+//@   var d2 int
+//@   assume 1 <= outday && outday <= 365
+//@   assume len == 365 || len == 366
+//@   prove exists: 0 <= outday - 1 && outday - 1 < len
+//@   prove unique: 0 <= d1 && d1 < len && 0 <= d2 && d2 < len && d1 + 1 == outday && d2 + 1 == outday ==> d1 == d2
+
+// the day loop visits every day number from the start to the end date exactly once, in order: nothing in the (whole) loop
+// body writes the day counter, the step or the start (frame decided over the real body; callees by their inferred write sets);
+// the end date may only be changed by the fertiliser forecast mode, which ends a run early (not part of the property)
+//@ region HermesSession.Run$1#dayloop from "for ZEIT := g.BEGINN; ZEIT <= g.ENDE; ZEIT = ZEIT + g.DT.Index {" to "for ZEIT := g.BEGINN; ZEIT <= g.ENDE; ZEIT = ZEIT + g.DT.Index {"
+//@   serves C05
+//@   opaque KalenderDate LoadYear WetterK GetGroundWaterLevel Hydro calcWRed setFieldCapacityWithGW Evatra Soiltemp Water PhytoOut Nitro Denitmo Denitr GlobalVarsMain.setIrrigation KalenderConverter$1 DateConverter$1
+//@   requires step: g.DT.Index == 1
+//@   requires window: g.BEGINN <= g.ENDE + 1
+//@ loop HermesSession.Run$1@"for ZEIT := g.BEGINN; ZEIT <= g.ENDE; ZEIT = ZEIT + g.DT.Index {"
+//@   invariant begin: g.BEGINN == pre(g.BEGINN)
+//@   invariant step: g.DT.Index == 1
+//@   invariant range: g.BEGINN <= \i
